@@ -7,6 +7,8 @@ import (
 	"math/big"
 
 	"github.com/cloudflare/circl/blindsign/blindrsa"
+	"golang.org/x/crypto/cryptobyte"
+	cbasn1 "golang.org/x/crypto/cryptobyte/asn1"
 )
 
 // Ideal model of RSA-2048 blind signatures (RFC 9474) and RSASSA-PSS verification.
@@ -160,7 +162,7 @@ func derUint(mag []byte) []byte {
 }
 
 func DerRSAPublicKey(nMag []byte, e int) []byte {
-	eb := []byte{byte(e >> 24), byte(e >> 16), byte(e >> 8), byte(e)}
+	eb := []byte{byte(e >> 56), byte(e >> 48), byte(e >> 40), byte(e >> 32), byte(e >> 24), byte(e >> 16), byte(e >> 8), byte(e)}
 	body := append(derUint(nMag), derUint(eb)...)
 	out := append([]byte{0x30}, derLen(len(body))...)
 	return append(out, body...)
@@ -188,4 +190,30 @@ func X509MarshalPKIXPublicKey(pub interface{}) ([]byte, error) {
 	body := append(alg, bits...)
 	out := append([]byte{0x30}, derLen(len(body))...)
 	return append(out, body...), nil
+}
+
+// x509.ParsePKCS1PublicKey by its documented behaviour: RSAPublicKey ::= SEQUENCE { modulus
+// INTEGER, publicExponent INTEGER }, no trailing data, positive modulus and exponent, exponent
+// at most 2^31-1.
+func X509ParsePKCS1PublicKey(der []byte) (*rsa.PublicKey, error) {
+	s := cryptobyte.String(der)
+	var seq cryptobyte.String
+	if !s.ReadASN1(&seq, cbasn1.SEQUENCE) || !s.Empty() {
+		return nil, errf("x509: invalid RSA public key")
+	}
+	n := new(big.Int)
+	var e int64
+	if !seq.ReadASN1Integer(n) || !seq.ReadASN1Integer(&e) || !seq.Empty() {
+		return nil, errf("x509: invalid RSA public key")
+	}
+	if bigNegative[n] || BigSign(n) == 0 {
+		return nil, errf("x509: public key contains zero or negative value")
+	}
+	if e <= 0 {
+		return nil, errf("x509: public key contains zero or negative value")
+	}
+	if e > 1<<31-1 {
+		return nil, errf("x509: public key contains large public exponent")
+	}
+	return &rsa.PublicKey{N: n, E: int(e)}, nil
 }
